@@ -404,7 +404,9 @@ func Eq(a, b *Term) *Term {
 		}
 		return Eq(a.Args[0], BV(iw, b.Val))
 	}
-	if a.ID > b.ID {
+	if a.IsConst() {
+		a, b = b, a
+	} else if !b.IsConst() && a.ID > b.ID {
 		a, b = b, a
 	}
 	return mk(OpEq, 0, a, b)
